@@ -468,7 +468,6 @@ func equalFuncOverLists(v ssa.Value, eq *ssa.Function, sideOf func(ssa.Value) st
 	return strings.HasPrefix(sa, "a") && strings.HasPrefix(sb, "b")
 }
 
-
 // sameFieldEqRV is sameFieldEq for a comparison made inside an inlined activation (a comparison closure
 // handed to a generic helper that does the assertion): the operands' roots are followed through the
 // frames - closure parameters to what the helper passed, captured variables to the cell's single store.
